@@ -312,11 +312,19 @@ retry:
                                      r_key.size() < full_key.size()
                                              ? r_key.size()
                                              : full_key.size());
-                if (ret_cmp < 0) { return status::OK_SCAN_END; }
-                if (ret_cmp == 0) {
-                    if (r_key.size() <= full_key.size()) {
-                        return status::OK_SCAN_END;
+                if (ret_cmp < 0 ||
+                    (ret_cmp == 0 && r_key.size() <= full_key.size())) {
+                    /**
+                     * The scan ends at this link. If this node contributed no value so far, it still is the
+                     * rightmost node of the range and must be included in the phantom verification.
+                     */
+                    if (!tuple_pushed_num && node_version_vec != nullptr) {
+                        node_version_vec->emplace_back(
+                                std::make_pair(v_at_fb, bn->get_version_ptr()));
                     }
+                    return status::OK_SCAN_END;
+                }
+                if (ret_cmp == 0) {
                     arg_r_key = r_key;
                     arg_r_end = r_end;
                 } else {
@@ -335,6 +343,14 @@ retry:
                 goto retry; // NOLINT
             }
             if (max_size != 0 && tuple_list.size() >= max_size) {
+                /**
+                 * The limit was reached inside the next layer. This node contributed only the link: a key
+                 * inserted before the last produced entry may land here, so log this node as well.
+                 */
+                if (!tuple_pushed_num && node_version_vec != nullptr) {
+                    node_version_vec->emplace_back(
+                            std::make_pair(v_at_fb, bn->get_version_ptr()));
+                }
                 return status::OK_SCAN_END;
             }
         } else {
